@@ -20,7 +20,7 @@ MANIFEST_INFO = {
     "engine": "E",
     "design_ref": "DESIGN.md section 5, C16",
     "technique": "bounded-exhaustive enumeration of texts x charsets x every way of cutting the encoded bytes into chunks (incl. empty chunks), of byte strings x chunk sizes x seek offsets/origins x buffer_now on an instrumented stream whose short reads are chooser choice points, of content pairs for equality, and of content types over a token alphabet for the repr/parse round trip; reference = join / bytes.decode / slicing",
-    "level_text": "All texts up to length 3 (quick) / 4 (thorough) over {a, e-acute, euro sign, U+1F600, NUL, combining acute} in utf8, utf-16, latin-1 and undeclared charset with every composition of the encoded bytes (all cuts for <= 8 (12) bytes, <= 3 cuts beyond; plus unterminated UTF-7 runs and truncated sequences) and an empty chunk at every position; every byte string of length <= 6 (7) over {00, 61, ff} x every chunk size x 7 seek offsets x both origins x buffer_now (and, for a given offset, the stream position moved by someone else between iter_bytes() and the first chunk) x every pattern of <= 2 short reads; all pairs of 48 contents (8 of them instances of a Content subclass) for equality, and each of them against None, its own bytes and its content type; json_content's input changed afterwards; as_text() read again after the source grew; every content type over a token alphabet with <= 2 parameters for the MIME round trip; detail snapshots vs later source changes.",
+    "level_text": "All texts up to length 3 (quick) / 4 (thorough) over {a, e-acute, euro sign, U+1F600, NUL, combining acute} in utf8, utf-16, latin-1 and undeclared charset with every composition of the encoded bytes (all cuts for <= 8 (12) bytes, <= 3 cuts beyond; plus unterminated UTF-7 runs and truncated sequences) and an empty chunk at every position; every byte string of length <= 6 (7) over {00, 61, ff} x every chunk size x 7 seek offsets x both origins x buffer_now (and, for a given offset, the stream position moved by someone else between iter_bytes() and the first chunk) x every pattern of <= 2 short reads; all pairs of 48 contents (8 of them instances of a Content subclass) for equality, and each of them against None, its own bytes and its content type; json_content's input changed afterwards; as_text() read again after the source grew; every content type over a token alphabet with <= 2 parameters for the MIME round trip; detail snapshots vs later source changes (incl. a Content subclass that serialises itself).",
     "level_note": "Finite scope stands in for 'all Unicode texts / all byte strings' (one representative per UTF-8 length class, NUL, a combining mark). Content-type parameter names are lower-case tokens and values contain no quote, backslash or non-ASCII characters (charset values no comma): outside this envelope the stdlib header parser legitimately normalises.",
 }
 
